@@ -52,6 +52,7 @@ Fixpoint scan_string (fuel : nat) (l : list N) (acc : list N) (escaped : bool) :
             end
           else if c =? 34 then SSOk acc escaped r
           else if c =? 0 then SSErr
+          else if c <? 32 then SSErr     (* raw control characters must be escaped *)
           else scan_string f r (acc ++ [c]) escaped
       end
   end.
